@@ -23,6 +23,16 @@ def main():
     print("lake build:", lb["ok"], "%.1fs" % lb["wall_s"])
     if not lb["ok"]:
         print(lb["log"])
+    # the two kernel-decided tables (C12: created vs reference catalogs; C17: expectation tables vs catalogs)
+    # take minutes of kernel time when built cold; build them here, from the committed facts, so that the
+    # checks find them cached (a check re-closes them only when the regenerated facts differ)
+    if lb["ok"]:
+        t1 = time.time()
+        r = subprocess.run(["lake", "build", "Properties.C12Table", "Properties.C17Facts"], cwd=LEAN,
+                           stdout=subprocess.PIPE, stderr=subprocess.STDOUT, text=True)
+        print("kernel tables (C12Table, C17Facts):", r.returncode == 0, "%.1fs" % (time.time() - t1))
+        if r.returncode != 0:
+            print(r.stdout[-2000:])   # not fatal: the checks then report kernel_table/facts as skipped or failed themselves
     print("setup done in %.1fs" % (time.time() - t0))
     return 0 if (b["ok"] and lb["ok"]) else 1
 
